@@ -9,6 +9,8 @@ import (
 	"path/filepath"
 	"runtime/debug"
 	"sort"
+	"syscall"
+	"unsafe"
 
 	spg "go.1password.io/spg"
 
@@ -117,6 +119,29 @@ func init() {
 	})
 }
 
+// Counter arrays live outside the Go heap (anonymous mmap): the bounded draw allocates 4 bytes per call, and
+// with gigabytes of live heap the collector would let garbage grow to a multiple of that before collecting.
+func mmapBytes(n int) ([]byte, func()) {
+	if n == 0 {
+		return nil, func() {}
+	}
+	b, err := syscall.Mmap(-1, 0, n, syscall.PROT_READ|syscall.PROT_WRITE, syscall.MAP_ANON|syscall.MAP_PRIVATE)
+	if err != nil {
+		return make([]byte, n), func() {}
+	}
+	return b, func() { syscall.Munmap(b) }
+}
+
+func allocCounters8(n uint32) ([]uint8, func()) { return mmapBytes(int(n)) }
+
+func allocCounters32(n uint32) ([]uint32, func()) {
+	b, free := mmapBytes(4 * int(n))
+	if len(b) == 0 {
+		return nil, free
+	}
+	return unsafe.Slice((*uint32)(unsafe.Pointer(&b[0])), int(n)), free
+}
+
 // sweepReader hands out the word under test as the first word of a draw, then
 // zeros (which any threshold rule accepts... or not: the call is then recorded
 // as rejected), then an error.
@@ -199,7 +224,8 @@ func c01Shard(c *Ctx, n uint32, shard int) {
 	span := uint64(1) << 32 / c01Shards
 	lo := uint64(shard) * span
 	hi := lo + span - 1
-	counts := make([]uint32, n)
+	counts, free := allocCounters32(n)
+	defer free()
 	acc, rej, bad, badWord := sweep(n, lo, hi, func(res uint32) { counts[res]++ })
 	c.Exec(int(acc + rej))
 	c.Count("sweep_words", int64(acc+rej))
@@ -238,7 +264,8 @@ func judgeCounts(n uint32, min, max uint64, minAt, maxAt uint32, acc, rej uint64
 
 // c01Whole sweeps all 2^32 words for a small bound in one process (replay, escalation).
 func c01Whole(c *Ctx, n uint32) {
-	counts := make([]uint32, n)
+	counts, free := allocCounters32(n)
+	defer free()
 	acc, rej, bad, badWord := sweep(n, 0, 1<<32-1, func(res uint32) { counts[res]++ })
 	c.Exec(int(acc + rej))
 	c.Count("sweep_words", int64(acc+rej))
@@ -264,7 +291,8 @@ func c01Whole(c *Ctx, n uint32) {
 }
 
 func c01Large(c *Ctx, n uint32) {
-	counts := make([]uint8, n)
+	counts, free := allocCounters8(n)
+	defer free()
 	sat := false
 	acc, rej, bad, badWord := sweep(n, 0, 1<<32-1, func(res uint32) {
 		if counts[res] == 255 {
@@ -466,6 +494,22 @@ func c01Scout(c *Ctx, k, of int) {
 						map[string]interface{}{"n": n, "rejected": rejectedWord, "word": w})
 					return
 				}
+				// several rejected words in a row: every one of them must be redrawn
+				for k := 2; k <= 4; k++ {
+					words := []uint32{}
+					for x := 0; x < k; x++ {
+						words = append(words, uint32(rejectedWord))
+					}
+					words = append(words, w, 0, 0)
+					rk, readsk, pk := tape.Observe(n, words...)
+					c.Exec(1)
+					c.Count("multi_rejection_continuations_checked", 1)
+					if pk || readsk != k+1 || rk != r1 {
+						c.Violate("redraw-not-fresh", fmt.Sprintf("n=%d: after %d rejected words (%#08x each) the next word %#08x gave %d after %d reads (panic=%v); alone it gives %d after one read", n, k, uint32(rejectedWord), w, rk, readsk, pk, r1),
+							map[string]interface{}{"n": n, "rejected": rejectedWord, "rejected_in_a_row": k, "word": w})
+						return
+					}
+				}
 			}
 		}
 		if suspicious != "" {
@@ -473,7 +517,8 @@ func c01Scout(c *Ctx, k, of int) {
 			if !escalated && n <= c01SmallMax {
 				escalated = true
 				c.Note(fmt.Sprintf("n=%d deviates from the reference model (%s): escalated to an exhaustive count", n, suspicious))
-				counts := make([]uint32, n)
+				counts, free := allocCounters32(n)
+				defer free()
 				acc, rej, bad, badWord := sweep(n, 0, 1<<32-1, func(res uint32) { counts[res]++ })
 				c.Exec(int(acc + rej))
 				c.Count("sweep_words", int64(acc+rej))
